@@ -1,4 +1,105 @@
-(** C15 — property theorems *)
+(** C15 — constants and .pyc files round-trip through marshal and the reader: the property theorems.
+
+    [ver] is the minor version of the target interpreter; the layouts are  ver < 8 (3.7),  8 <= ver < 11 (3.8–3.10),
+    11 <= ver (3.11).  All theorems hold for every [ver], every value of the types and every nesting depth up to the
+    recursion limit of the respective reader (CPython: 2000, erg: 128).  [into_bytes], [read_const], [from_bytes],
+    [read_pyc] are the code as it is now; the [_nofix] functions are the code of the design round. *)
 From Coq Require Import ZArith List.
 From ErgV Require Import Marshal.Model Marshal.Spec Marshal.Proofs.
 Import ListNotations.
+Open Scope Z_scope.
+
+(** The writer is defined (does not panic) on every constant of the types. *)
+Theorem into_bytes_defined :
+  forall ver v, serialisable v = true -> exists b, into_bytes ver v = Ok b.
+Proof. exact into_bytes_defined_proof. Qed.
+
+(** Writer half: CPython's unmarshaller rebuilds the intended value, of the intended type, from the bytes of every
+    serialisable constant — any i32, any u64 (TYPE_LONG above i32::MAX), every float bit pattern, every string of
+    scalar values, nested tuples and nested code objects — and consumes exactly those bytes. *)
+Theorem py_loads_dumps :
+  forall ver v b, serialisable v = true -> vdepth v <= MAX_MARSHAL_STACK_DEPTH ->
+    into_bytes ver v = Ok b -> py_loads ver b = POk (py_of ver v, []).
+Proof. exact py_loads_dumps_proof. Qed.
+
+(** Reader half, constants: erg's reader reads back what the writer wrote ([norm]: 'i' comes back as Int, 'l' as
+    Nat, every sequence as List, code objects with the fields their version carries). *)
+Theorem erg_read_write :
+  forall ver v b, serialisable v = true -> vdepth v <= MAX_DEPTH ->
+    into_bytes ver v = Ok b -> read_const ver b = Ok (norm ver v, []).
+Proof. exact erg_read_write_proof. Qed.
+
+(** Reader half, files: what [CodeObj::into_bytecode] writes for a known magic number, [CodeObj::from_pyc]
+    (`erg --mode read`) reads back, for each of the three layouts. *)
+Theorem erg_read_write_pyc :
+  forall magic ts ver c b, ver_of_magic magic = Some ver -> 0 <= ts < 4294967296 ->
+    serialisable (VCode c) = true -> vdepth (VCode c) <= MAX_DEPTH + 1 ->
+    into_bytecode magic ts c = Ok b ->
+    read_pyc b = Ok (ver, norm_code ver c (map (norm ver) (consts c))).
+Proof. exact read_pyc_write_proof. Qed.
+
+(** The reader never crashes: on every byte sequence [from_pyc], [from_bytes] and [deserialize_const] return a value
+    or an error; none of the checked reads fails, and the fuel of the model is never exhausted. *)
+Theorem read_total :
+  forall bs, read_pyc bs <> Panic /\ read_pyc bs <> Fuel.
+Proof. exact read_pyc_total_proof. Qed.
+Theorem read_const_total :
+  forall ver bs, read_const ver bs <> Panic /\ read_const ver bs <> Fuel.
+Proof. exact read_const_total_proof. Qed.
+Theorem from_bytes_total :
+  forall ver bs, from_bytes ver bs <> Panic /\ from_bytes ver bs <> Fuel.
+Proof. exact from_bytes_total_proof. Qed.
+
+(** The state of the design round (`_nofix` model) violates both halves; the witnesses are replayed against the
+    implementation by checks/c15.py (known/C15.json). *)
+Theorem py_loads_dumps_nofix_refuted :
+  exists v b, serialisable v = true /\ vdepth v <= MAX_MARSHAL_STACK_DEPTH /\ into_bytes_nofix 11 v = Ok b
+              /\ py_loads 11 b = POk (PInt (-1294967296), []) /\ py_of 11 v = PInt 3000000000.
+Proof. exact py_loads_dumps_nofix_refuted_proof. Qed.
+Theorem read_total_nofix_refuted :
+  (exists bs, read_pyc_nofix bs = Panic) /\ (exists bs, read_const_nofix 11 bs = Panic).
+Proof. exact read_total_nofix_refuted_proof. Qed.
+
+(* ------------------------------------------------------------------------------------------------ non-vacuity *)
+Definition ex_value : value :=
+  VTuple [VNat 18446744073709551615; VFloat 9223372036854775808 (* -0.0 *); VStr [104; 233; 128512];
+          VList [VInt (-2147483648); VBool true; VNone; VTuple []]].
+Definition ex_code : code_ value :=
+  mkCode 1 0 0 1 2 67 [100; 0; 83; 0] [VNat 3000000000; VTuple [VStr [97]]; VFloat 9218868437227405313 (* a signalling NaN *)]
+         [[112; 114; 105; 110; 116]] [[120]] [] [[120]] [109; 46; 101; 114] [102] [102] 1 [2; 1] [].
+
+Definition ex_value_bytes : list Z :=
+  Eval vm_compute in match into_bytes 11 ex_value with Ok b => b | _ => [] end.
+Definition ex_pyc (magic : Z) : list Z :=
+  match into_bytecode magic 1700000000 ex_code with Ok b => b | _ => [] end.
+Definition ex_pyc_311 : list Z := Eval vm_compute in ex_pyc 3495.
+Definition ex_pyc_38 : list Z := Eval vm_compute in ex_pyc 3413.
+Definition ex_pyc_37 : list Z := Eval vm_compute in ex_pyc 3394.
+
+Example ex_value_in_domain : serialisable ex_value = true /\ vdepth ex_value = 3.
+Proof. vm_compute. split; reflexivity. Qed.
+Example ex_value_python : into_bytes 11 ex_value = Ok ex_value_bytes /\ py_loads 11 ex_value_bytes = POk (py_of 11 ex_value, []).
+Proof. split; vm_compute; reflexivity. Qed.
+Example ex_value_erg : read_const 11 ex_value_bytes = Ok (norm 11 ex_value, []).
+Proof. vm_compute; reflexivity. Qed.
+Example ex_code_in_domain : serialisable (VCode ex_code) = true /\ ver_of_magic 3495 = Some 11 /\ ver_of_magic 3413 = Some 8
+                            /\ ver_of_magic 3394 = Some 7.
+Proof. vm_compute. repeat split; reflexivity. Qed.
+Example ex_code_pyc_311 :
+  into_bytecode 3495 1700000000 ex_code = Ok ex_pyc_311
+  /\ read_pyc ex_pyc_311 = Ok (11, norm_code 11 ex_code (map (norm 11) (consts ex_code)))
+  /\ py_loads 11 (skipn 16 ex_pyc_311) = POk (py_of 11 (VCode ex_code), []).
+Proof. repeat split; vm_compute; reflexivity. Qed.
+Example ex_code_pyc_38 :
+  into_bytecode 3413 1700000000 ex_code = Ok ex_pyc_38
+  /\ read_pyc ex_pyc_38 = Ok (8, norm_code 8 ex_code (map (norm 8) (consts ex_code)))
+  /\ py_loads 8 (skipn 16 ex_pyc_38) = POk (py_of 8 (VCode ex_code), []).
+Proof. repeat split; vm_compute; reflexivity. Qed.
+Example ex_code_pyc_37 :
+  into_bytecode 3394 1700000000 ex_code = Ok ex_pyc_37
+  /\ read_pyc ex_pyc_37 = Ok (7, norm_code 7 ex_code (map (norm 7) (consts ex_code)))
+  /\ py_loads 7 (skipn 16 ex_pyc_37) = POk (py_of 7 (VCode ex_code), []).
+Proof. repeat split; vm_compute; reflexivity. Qed.
+Example ex_broken_files : read_pyc [1; 2; 3] = Err EBroken /\ read_const 11 [41; 5; 78] = Err EBroken
+                          /\ read_const 11 [40; 255; 255; 255; 255] = Err EBroken.
+Proof. vm_compute. repeat split; reflexivity. Qed.
